@@ -16,9 +16,14 @@ fn case_variant(sfx: &str, v: usize) -> String {
 }
 
 /// Sentence templates; `{}` is where "<n><sfx>" goes.
-const TEMPLATES: [&str; 8] = [
+// the last eight put other number-like things before the ordinal (what one condensing pass does to them must not
+// disturb the next one): a spaced ordinal, a correct ordinal, a decimal, a number ending a sentence, a decade ...
+const TEMPLATES: [&str; 16] = [
     "The {} item.", "{}", "{} place went to her.", "She came in {}.", "On the {}, we left.",
     "Is it the {}?", "(the {} time)", "Ünïcödé 😀 prefix, then the {} one.",
+    "The 2 nd entry and then the {} item.", "Pick the 4 th column, the 1st row and the {}", "First the 3rd, then the {} one.",
+    "It costs 3.50 on the {} day.", "I have 4. The {} is mine.", "In the 1980s the {} one won.", "No. 5 and 1,000 more: the {}!",
+    "The 1 st, 2 nd and 3 rd came before the {} did.",
 ];
 
 fn one(digits: &str, sfx: &str, variant: usize, tpl: usize, markdown: bool) -> Value {
